@@ -37,6 +37,10 @@ def _setup(ctx, is_method, lookup_table):
     # the signature analysis the rewriter consults: which names are positional parameters (position numbers) and
     # which are keyword-only (their own name), as the analyser files them
     analysis = Record(is_method=is_method, name_to_positions={"P0": {0}, "P1": {1}, "P2": {2}, "K0": {"K0"}, "K1": {"K1"}})
+    # (read as a value - `lookup_for = self.analysis.lookup_for` - it answers like the call form does)
+    from ..metainterp import HostFn
+
+    analysis.lookup_for = HostFn(lambda key: lookup_table.get(key, "TYPE"))
     kwargs = {}
     rparams = rc.params
     def core(e):
